@@ -16,7 +16,7 @@ LEVEL = "exploration"
 TECHNIQUE = "Hypothesis-generated sandboxes (payload intact or damaged, metafiles of all versions, bystander files incl. '.torrent' and '<name>.torrent') x command x spelling, through cli.execute and the library functions; oracle: recursive snapshot diff (names, types, sizes, SHA-256, modes) of the sandbox before/after ; foreign metafiles, occupant kinds for rename, -q -v combinations, shell-pattern names, payloads called *.torrent, over-long names with the rename destination learned from a dry run in a twin directory"
 RULE = ("Cases: sandbox directory (also the cwd) holding a payload (intact, byte-flipped, or with a file removed), its metafile (v1/v2/hybrid), "
         "bystander files including the names '.torrent', '<name>.torrent' and files inside an output directory; command in {recheck, check, "
-        "info, magnet, m, library Checker/info/magnet, create, new (without -o, -o file, -o existing file, -o dir/), rename (target free / "
+        "info, magnet, m, library Checker/info/magnet, create, new (without -o, -o file, -o existing file, -o dir/, -o a dangling symlink), rename (target free / occupied by junk, a copy, the same info with other trackers, a dangling symlink; info.name with a path separator) (target free / "
         "occupied)} x spellings (-q, -v, none). Oracle: read-only commands leave the snapshot identical; create leaves the payload identical "
         "and exactly one path new-or-changed, the expected output path; rename leaves the bytes identical under the new name, removes the old "
         "name, changes nothing else, and with an occupied target raises and changes nothing. Non-trivial: bystanders present, or the payload "
